@@ -68,7 +68,9 @@ pub fn run_pool(f: &[&str]) -> String {
             impl Drop for Done { fn drop(&mut self) { let (m, cv) = &*self.0; *m.lock().unwrap() += 1; cv.notify_all(); } }
             let _d = Done(done);
             if k == 's' { std::thread::sleep(Duration::from_micros(200 + rnd() % 800)); }
-            if k == 'p' { panic!("scripted job panic"); }
+            // panics of every payload kind a job can produce: a literal (&str), a formatted message (String), a failed unwrap, any other value
+            if k == 'p' { match j % 4 { 0 => panic!("scripted job panic"), 1 => panic!("scripted job panic {}", j),
+                                        2 => { let e: Result<u32, String> = Err(format!("job {}", j)); e.unwrap(); }, _ => std::panic::panic_any(j as u64) } }
             if k == 'r' { // rendezvous of n: wait until the n tasks of this group have started
                 let (m, cv) = &*started; let mut g = m.lock().unwrap(); *g += 1; cv.notify_all();
                 let need = (((my_rdv - 1) / n) + 1) * n; let need = need.min(nrdv); let dl = Instant::now() + Duration::from_secs(8);
